@@ -323,7 +323,7 @@ func C10shares(p *load.Program, run *report.Run) {
 		run.Undecided("input-sharing", "gmw.Network.run", "", "function not found")
 		return
 	}
-	for _, n := range []int{2, 3, 4} {
+	for _, n := range partyCounts() {
 		run.Count("party-counts", 1)
 		parties := make([]*shareParty, n)
 		fail := ""
